@@ -286,6 +286,9 @@ func verifC14Eval(acc *verifC14Acc, cfg verifC14Cfg, frames []refws.Frame, wire 
 	if exp.Term == refws.TermUnasserted {
 		// observation only: what does the library do where the statement is silent?
 		acc.Count(fmt.Sprintf("obs:%s:lib-%s", exp.Reason, kind), 1)
+		if os.Getenv("VERIF_C14_DEBUG_OBS") != "" && len(exp.Reason) > 30 {
+			fmt.Printf("OBS %s %v %v lib=%v\n", exp.Reason, refws.Describe(frames), cfg, o.err)
+		}
 		if len(o.msgs) < len(exp.Messages) || len(pongs) < len(exp.Pongs) {
 			m.Violationf("c14:message-not-delivered:before-unasserted", rep(), "only %d/%d messages, %d/%d pongs before the unasserted point", len(o.msgs), len(exp.Messages), len(pongs), len(exp.Pongs))
 		}
